@@ -67,8 +67,9 @@ func genC17(rt *rapid.T) c17Case {
 				continue
 			}
 			a := c17Adv{Prefix: p, LP: rapid.SampledFrom([]uint32{0, 100, 200}).Draw(rt, "lp")}
-			for j, n := 0, rapid.IntRange(0, 2).Draw(rt, "ncomm"); j < n; j++ {
-				a.Comms = append(a.Comms, rapid.SampledFrom([]uint32{65000<<16 | 1, 65000<<16 | 2, 100<<16 | 200}).Draw(rt, "comm"))
+			// mostly a few communities, now and then many (the attribute length crosses 127 and 255 bytes at 32 and 64)
+			for j, n := 0, rapid.SampledFrom([]int{0, 0, 1, 1, 2, 2, 31, 32, 40, 63}).Draw(rt, "ncomm"); j < n; j++ {
+				a.Comms = append(a.Comms, rapid.SampledFrom([]uint32{65000<<16 | 1, 65000<<16 | 2, 100<<16 | 200}).Draw(rt, "comm")+uint32(j/3)*16)
 			}
 			set = append(set, a)
 		}
